@@ -244,3 +244,74 @@ package cdi
 //@                        spec.devices != nil && fresh(spec.devices) && len(spec.devices) == len(raw.Devices) &&
 //@                        forall(k, 0 <= k && k < len(raw.Devices), has(spec.devices, old(raw.Devices[k].Name))) &&
 //@                        forall(n, string, has(spec.devices, n), exists(k, 0 <= k && k < len(raw.Devices), old(raw.Devices[k].Name) == n)))
+
+// ---------------------------------------------------------------- cache.go InjectDevices, container-edits.go Append/Apply (C04, C14)
+
+//@ pred FreshOrNil(s []string) = base(s) == 0 || fresh(s)
+//@ pred OwnLists(c *cdi.ContainerEdits) = (base(c.Env) == 0 || fresh(c.Env)) && (base(c.DeviceNodes) == 0 || fresh(c.DeviceNodes)) &&
+//@        (base(c.Hooks) == 0 || fresh(c.Hooks)) && (base(c.Mounts) == 0 || fresh(c.Mounts)) &&
+//@        (base(c.AdditionalGIDs) == 0 || fresh(c.AdditionalGIDs))
+
+// refreshIfRequired: body not verified here (watch/refresh machinery); that it cannot touch an OCI spec is
+// a type argument checked by gocv (typeframe).
+// CacheWF: representation invariant of the index (established by refresh from newSpec's results).
+//@ pred CacheWF(c *Cache) = forall(k, string, has(c.devices, k), c.devices[k] != nil && c.devices[k].Device != nil &&
+//@        c.devices[k].spec != nil && c.devices[k].spec.Spec != nil)
+
+//@ func (c *Cache) refreshIfRequired(force bool) (refreshed bool, err error)
+//@   trusted
+//@   typeframe github.com/opencontainers/runtime-spec/specs-go
+//@   preserves github.com/opencontainers/runtime-spec/specs-go, tags.cncf.io/container-device-interface/specs-go
+//@   frametags C04
+//@   ensures CacheWF(c)
+
+//@ func (e *ContainerEdits) Append(o *ContainerEdits) (r *ContainerEdits)
+//@   modifies e.ContainerEdits if e != nil, e.ContainerEdits.* if e != nil && e.ContainerEdits != nil
+//@   modifies elems(e.Env) if e != nil && e.ContainerEdits != nil, elems(e.DeviceNodes) if e != nil && e.ContainerEdits != nil
+//@   modifies elems(e.Hooks) if e != nil && e.ContainerEdits != nil, elems(e.Mounts) if e != nil && e.ContainerEdits != nil
+//@   modifies elems(e.AdditionalGIDs) if e != nil && e.ContainerEdits != nil
+//@   frametags C04,C14
+//@   ensures implies(e != nil, r == e)
+//@   ensures implies(e == nil && (o == nil || o.ContainerEdits == nil), r == nil)
+//@   ensures implies(e != nil && (o == nil || o.ContainerEdits == nil), e.ContainerEdits == old(e.ContainerEdits))
+//@   ensures implies(e != nil && old(e.ContainerEdits) != nil && (o == nil || o.ContainerEdits == nil),
+//@                   e.Env == old(e.Env) && e.DeviceNodes == old(e.DeviceNodes) && e.Hooks == old(e.Hooks) &&
+//@                   e.Mounts == old(e.Mounts) && e.AdditionalGIDs == old(e.AdditionalGIDs) && e.IntelRdt == old(e.IntelRdt))
+//@   ensures implies(e != nil && o != nil && o.ContainerEdits != nil,
+//@                   e.ContainerEdits != nil && (e.ContainerEdits == old(e.ContainerEdits) || fresh(e.ContainerEdits)))
+//@   ensures implies(e != nil && o != nil && o.ContainerEdits != nil,
+//@                   (base(e.Env) == 0 || (old(e.ContainerEdits) != nil && base(e.Env) == old(base(e.Env))) || fresh(e.Env)) &&
+//@                   (base(e.DeviceNodes) == 0 || (old(e.ContainerEdits) != nil && base(e.DeviceNodes) == old(base(e.DeviceNodes))) || fresh(e.DeviceNodes)) &&
+//@                   (base(e.Hooks) == 0 || (old(e.ContainerEdits) != nil && base(e.Hooks) == old(base(e.Hooks))) || fresh(e.Hooks)) &&
+//@                   (base(e.Mounts) == 0 || (old(e.ContainerEdits) != nil && base(e.Mounts) == old(base(e.Mounts))) || fresh(e.Mounts)) &&
+//@                   (base(e.AdditionalGIDs) == 0 || (old(e.ContainerEdits) != nil && base(e.AdditionalGIDs) == old(base(e.AdditionalGIDs))) || fresh(e.AdditionalGIDs)))
+
+//@ func (e *ContainerEdits) Apply(spec *oci.Spec) (err error)
+//@   preserves tags.cncf.io/container-device-interface/specs-go, tags.cncf.io/container-device-interface/pkg/cdi
+//@   frametags C14
+//@   ensures implies(spec == nil, err != nil)
+
+//@ func (c *Cache) InjectDevices(ociSpec *oci.Spec, devices []string) (unresolved []string, err error)
+//@   requires c != nil
+//@   preserves tags.cncf.io/container-device-interface/specs-go
+//@   frametags C14
+//@   ghostvar idx intarray
+//@   ghost at loop 1 body end: idx = ite(len(unresolved) > len(#hd_unresolved), store(idx, len(#hd_unresolved), #i - 1), idx)
+//@   ensures[C04] implies(ociSpec == nil, err != nil && unresolved == devices && preserved("github.com/opencontainers/runtime-spec/specs-go"))
+//@   ensures[C04] implies(ociSpec != nil, forall(j, 0 <= j && j < len(unresolved), 0 <= idx[j] && idx[j] < len(devices) &&
+//@                        unresolved[j] == devices[idx[j]] && c.devices[devices[idx[j]]] == nil))
+//@   ensures[C04] implies(ociSpec != nil, forall(a, 0 <= a && a < len(unresolved), forall(b, a < b && b < len(unresolved), idx[a] < idx[b])))
+//@   ensures[C04] implies(ociSpec != nil && len(unresolved) > 0, forall(t, 0 <= t && t < len(devices), implies(c.devices[devices[t]] == nil,
+//@                        exists(j, 0 <= j && j < len(unresolved), idx[j] == t))))
+//@   assert at call of Apply: forall(t, 0 <= t && t < len(devices), c.devices[devices[t]] != nil)
+//@   ensures[C04] implies(ociSpec != nil && len(unresolved) > 0, err != nil && preserved("github.com/opencontainers/runtime-spec/specs-go"))
+//@   ensures[C04] implies(err == nil, len(unresolved) == 0)
+//@   loop 1 invariant base(unresolved) == 0 || fresh(unresolved)
+//@   loop 1 invariant forall(j, 0 <= j && j < len(unresolved), 0 <= idx[j] && idx[j] < #i &&
+//@                        unresolved[j] == devices[idx[j]] && c.devices[devices[idx[j]]] == nil)
+//@   loop 1 invariant forall(a, 0 <= a && a < len(unresolved), forall(b, a < b && b < len(unresolved), idx[a] < idx[b]))
+//@   loop 1 invariant forall(t, 0 <= t && t < #i, implies(c.devices[devices[t]] == nil,
+//@                        exists(j, 0 <= j && j < len(unresolved), idx[j] == t)))
+//@   loop 1 invariant edits != nil && fresh(edits) && (edits.ContainerEdits == nil || (fresh(edits.ContainerEdits) && OwnLists(edits.ContainerEdits)))
+//@   loop 1 invariant base(devices) == 0 || base(devices) != base(unresolved)
+//@   loop 1 invariant edits.ContainerEdits == nil || base(edits.Env) == 0 || base(edits.Env) != base(unresolved)
